@@ -190,6 +190,7 @@ func c06(c *Ctx) {
 	}
 	r.Floor("R6.4", n64, 4)
 	c.checkNoReaderGlobals()
+	c.checkPreloadDispatchError()
 	c.R.Rule("R6.6", "a reader handed out by the size query is positioned at the start (same check as R4.7): the preload drains the stream the builder splices together, and a child reader left at its end contributes nothing — its blocks would never be fetched")
 	c.checkSizeQueryRewinds("R6.6")
 }
@@ -388,7 +389,7 @@ func (c *Ctx) checkMustWalk(fn *ssa.Function) {
 	var walkCalls []*ssa.Call
 	complete := core.EnumPaths(fn, 2, 100000, func(path []*ssa.BasicBlock) {
 		var walked []ssa.Value
-		for _, b := range path {
+		for pi, b := range path {
 			for _, ins := range b.Instrs {
 				switch x := ins.(type) {
 				case *ssa.Call:
@@ -404,7 +405,8 @@ func (c *Ctx) checkMustWalk(fn *ssa.Function) {
 					walkCalls = append(walkCalls, x)
 				case *ssa.Return:
 					rr := core.ResolvedResults(x)
-					if !core.IsNilConst(rr[errIdx]) {
+					// a return counts as (possibly) successful unless its error is known non-nil on this path
+					if core.ErrKnownNonNil(rr[errIdx], core.PathNonNil(path, pi)) {
 						continue
 					}
 					nsucc++
@@ -920,4 +922,75 @@ func (c *Ctx) checkNoReaderGlobals() {
 	if n == 0 {
 		r.OK("R6.5", "reader-packages/no-global-state", "-", "no package-level variable of the reader packages is written outside init")
 	}
+}
+
+// checkPreloadDispatchError implements R6.7: between the "unixfs-preload" registry entry and the table members that do the
+// loading, every call hands the member's error on unchanged.
+func (c *Ctx) checkPreloadDispatchError() {
+	r := c.R
+	r.Rule("R6.7", "the preload reifier reports what its table member reports: in every root-package function on the way from the \"unixfs-preload\" registry entry to the preload table, the call that can reach a block load has its error propagated (a fallback to another view on error would return a node although a block is missing)")
+	reg, _ := c.reifierRegistry()
+	fp := reg["unixfs-preload"]
+	if fp == nil {
+		return
+	}
+	fetch := c.G.Fetchers(core.ReaderPkgs)
+	reach := c.G.ReachersOf(fetch)
+	seen := map[*ssa.Function]bool{}
+	var visit func(fn *ssa.Function, d int)
+	n := 0
+	visit = func(fn *ssa.Function, d int) {
+		if seen[fn] || d > 4 {
+			return
+		}
+		seen[fn] = true
+		if rel, ok := c.P.PkgOf(fn); !ok || rel != "" {
+			return
+		}
+		ord := 0
+		for _, ci := range core.CallsIn(fn) {
+			reaches := false
+			var next []*ssa.Function
+			for _, e := range c.G.Out[fn] {
+				if e.Site == ci.(ssa.Instruction) && reach[e.Callee] {
+					reaches = true
+					next = append(next, e.Callee)
+				}
+			}
+			if sc := ci.Common().StaticCallee(); sc != nil && reach[sc] {
+				reaches = true
+				next = append(next, sc)
+			}
+			// the unspecialised dispatcher's dynamic call
+			if !reaches && ci.Common().StaticCallee() == nil && !ci.Common().IsInvoke() {
+				fns, _ := c.G.ResolveFuncValue(ci.Common().Value, nil)
+				for _, f := range fns {
+					if reach[f] {
+						reaches = true
+					}
+				}
+			}
+			if !reaches || core.ErrResultIndex(ci.Common().Signature()) < 0 {
+				continue
+			}
+			n++
+			ord++
+			key := fmt.Sprintf("%s/dispatch-error#%d", core.FuncName(fn), ord)
+			probs, noErr, complete := core.CheckErrPropagated(fn, ci)
+			var ss []string
+			for _, p := range probs {
+				ss = append(ss, fmt.Sprintf("%s [return at %s]", p.What, c.P.Pos(p.Pos)))
+			}
+			if !complete {
+				r.Undecided("R6.7", key, c.P.Pos(ci.Pos()), "path enumeration exceeded its bound")
+			} else {
+				r.Check(len(probs) == 0 && !noErr, "R6.7", key, c.P.Pos(ci.Pos()), "the error of the loading call reaches the caller of the reifier", "the preload reifier can return a node although the loading call failed: "+uniqJoin(ss))
+			}
+			for _, f := range next {
+				visit(f, d+1)
+			}
+		}
+	}
+	visit(fp, 0)
+	r.Floor("R6.7", n, 2)
 }
